@@ -100,6 +100,24 @@ theorem strict_refuses_with_reason (c : Config) (hs : c.strict = true) (i : Inse
     ∃ e, start tlds l2s c = .refuse e (reasonOf i) :=
   strict_reason_aux tlds l2s c hs i hi honly hf hk hc hm hu
 
+/-- **the strict-mode decision table.** For every well-formed configuration (URL parses with scheme and host, a DID method
+    enabled, known crypto backend or none, no moved keys / command-line secrets) strict-mode start-up is exactly this
+    decision list over the seven insecure settings: refused iff at least one is present, with the first one's reason. -/
+theorem strict_decision_table (c : Config) (hs : c.strict = true)
+    (hf : c.cliFlags.any isSecretFlag = false) (hk : c.movedKey = false) (hc : c.cryptoStorage ≠ .invalid)
+    (hm : c.nuts = true ∨ c.web = true)
+    (hu : c.url ≠ [] ∧ ∃ u, parseURL c.url = .ok u ∧ u.scheme ≠ [] ∧ hostname u.host ≠ []) :
+    start tlds l2s c =
+      if hasInsecure tlds l2s .sqlImplicit c then .refuse "storage" "sql-implicit" else
+      if hasInsecure tlds l2s .cryptoImplicit c then .refuse "crypto" "crypto-implicit" else
+      if hasInsecure tlds l2s .urlNotHttps c then .refuse "vdr" "url:scheme" else
+      if hasInsecure tlds l2s .urlIP c then .refuse "vdr" "url:ip" else
+      if hasInsecure tlds l2s .urlReserved c then .refuse "vdr" "url:reserved" else
+      if hasInsecure tlds l2s .tlsOff c then .refuse "network" "tls-off" else
+      if hasInsecure tlds l2s .irmaNonProduction c then .refuse "auth" "irma-scheme" else
+      .ok { dummyMeans := false, unlistedRemoteContexts := false, clientStrict := true } :=
+  start_strict_formula tlds l2s c hs hf hk hc hm hu
+
 /-- per-action settings in strict mode: a node that did start has no dummy signing means, fetches no JSON-LD context
     outside the allow-list, and its HTTP clients are in strict mode -/
 theorem strict_running (c : Config) (hs : c.strict = true) (r : Running) (h : start tlds l2s c = .ok r) :
